@@ -5,6 +5,7 @@ Theorems over the model `Uquic.Model.Sent` (internal/ackhandler sent-packet hand
 import Uquic.Proofs.SentLedger
 import Uquic.Proofs.SentFlight
 import Uquic.Proofs.SentAcked
+import Uquic.Proofs.SentTimer
 
 namespace Uquic.Props.C06
 open Uquic.Model.Sent Uquic.Proofs.Sent List
@@ -286,5 +287,46 @@ theorem ack_outcomes (s : State) (hr : Reached s) (env : Env) (ranges : List Ran
     (s.receivedAck env ranges lvl now).2.res = .err .ackSkipped ∨ (s.receivedAck env ranges lvl now).2.res = .panic .nilSpace ∨
     (s.receivedAck env ranges lvl now).2.res = .panic .emptyAck :=
   receivedAck_outcomes hr.1 hr.2
+
+/-! ### timer_armed -/
+
+/-- a history obeys the timer theorem's caller contract (`ValidT`) at every operation that is executed -/
+def ValidRunT (s : State) : List (Op × StepEnv) → Prop
+  | [] => True
+  | (op, e) :: rest => ValidT s op ∧ ((s.step op e).2.res = .ok → ValidRunT (s.step op e).1 rest)
+
+theorem timer_run (ops : List (Op × StepEnv)) : ∀ (s : State), TInv s → ValidRunT s ops → (s.run ops).res = .ok →
+    TInv (s.run ops).s := by
+  induction ops with
+  | nil => intro s t _ _; exact t
+  | cons x xs ih =>
+    intro s t hv hok
+    obtain ⟨op, e⟩ := x
+    obtain ⟨v1, v2⟩ := hv
+    simp only [State.run] at hok ⊢
+    cases hr : (s.step op e).2.res with
+    | ok =>
+      simp only [hr] at hok ⊢
+      exact ih _ (step_timer t v1 hr) (v2 hr) hok
+    | err c => simp [hr] at hok
+    | panic c => simp [hr] at hok
+
+/-- **timer_armed**: after every history that completed normally, in which packets are sent at positive
+    clock readings and a Retry arrives only while no Handshake packet is outstanding: whenever
+    ack-eliciting Initial or Handshake data is outstanding, or the handshake is confirmed and
+    ack-eliciting application data is outstanding, and sending is not amplification-limited, the
+    loss-detection alarm is set (`alarm.Time ≠ 0`).  Along the way: a space with outstanding packets has a
+    positive `lastAckElicitingPacketTime`. -/
+theorem timer_armed (pn : PN) (val client : Bool) (nts : PN) (ops : List (Op × StepEnv))
+    (hv : ValidRunT (State.new pn val client nts) ops) (hok : ((State.new pn val client nts).run ops).res = .ok) :
+    let s := ((State.new pn val client nts).run ops).s
+    ((s.hasOutstandingCrypto || (s.handshakeConfirmed && s.app.hist.hasOutstandingPackets)) && !s.isAmplificationLimited) = true →
+      s.alarm.time ≠ 0 :=
+  (timer_run ops _ (TInv_new pn val client nts) hv hok).armed
+
+/-- the hypotheses of `timer_armed` are satisfiable and its conclusion is not vacuous: a client sent one
+    Initial packet; a deadline one PTO later is armed -/
+example : let s := ((State.new 0 false true 300).run [(.send .initial 1000 (-1) 100 false false [⟨1, true⟩] [], wEnv)]).s
+    needsTimer s = true ∧ s.alarm.time = 200001000 := by decide
 
 end Uquic.Props.C06
